@@ -264,3 +264,60 @@ package s2
 //@   ensures [disjoint] result == Disjoint ==> (forall k int :: 0 <= k && k < len(s.index.cells) ==> !s.index.cells[k].Intersects(target))
 //@   ensures [indexed-complete] (forall k int :: 0 <= k && k < len(s.index.cells) && s.index.cells[k].Contains(target) ==> result == Indexed)
 //@   ensures [cell] vcIterCell(s)
+
+// ---------------------------------------------------------------- Polygon as a Shape (the seventh implementation)
+
+//@ property C06
+
+// edge id at which loop k starts: the sum of the sizes of the loops before it
+//@ spec func vcEdgeStart(p *Polygon, k int) int = vcIf(k <= 0, 0, vcEdgeStart(p, k-1)+len(p.loops[k-1].vertices))
+//@   decreases k
+
+// an ordinary polygon (no empty/full loop, which have a single vertex and are special-cased elsewhere): the edge count is the
+// total number of vertices, the optional cumulative table holds the prefix sums, the sums stay far from overflow and are
+// ordered (a consequence of the definition, by induction, stated rather than proved: the solvers do no induction)
+//@ spec func vcWfPolyShape(p *Polygon) bool = p != nil && (forall k int :: 0 <= k && k < len(p.loops) ==> p.loops[k] != nil && len(p.loops[k].vertices) >= 2) &&
+//@    p.numEdges == vcEdgeStart(p, len(p.loops)) && p.numEdges <= 1<<40 &&
+//@    (forall k int :: 0 <= k && k <= len(p.loops) ==> 0 <= vcEdgeStart(p, k) && vcEdgeStart(p, k) <= p.numEdges) &&
+//@    (forall a int :: forall b int :: 0 <= a && a < b && b <= len(p.loops) ==> vcEdgeStart(p, a)+len(p.loops[a].vertices) <= vcEdgeStart(p, b)) &&
+//@    (len(p.cumulativeEdges) == 0 || (len(p.cumulativeEdges) == len(p.loops) && (forall k int :: 0 <= k && k < len(p.loops) ==> p.cumulativeEdges[k] == vcEdgeStart(p, k)))) &&
+//@    (p.cumulativeEdges != nil ==> len(p.cumulativeEdges) == len(p.loops))
+
+//@ func (p *Polygon) NumEdges() int
+//@   requires p != nil
+//@   ensures result == p.numEdges
+
+//@ func (p *Polygon) NumChains() int
+//@   requires p != nil
+//@   ensures result == len(p.loops)
+
+// chain i is loop i: it starts where the loops before it end (so the chains partition the edge ids in order)
+//@ func (p *Polygon) Chain(chainID int) Chain
+//@   requires vcWfPolyShape(p) && 0 <= chainID && chainID < len(p.loops)
+//@   ensures [start] result.Start == vcEdgeStart(p, chainID)
+//@   ensures [length] result.Length == len(p.loops[chainID].vertices)
+//@   loop 1 (j int, e int): invariant 0 <= j && j <= chainID && e == vcEdgeStart(p, j)
+
+// ChainPosition inverts Chain
+//@ func (p *Polygon) ChainPosition(edgeID int) ChainPosition
+//@   requires vcWfPolyShape(p) && 0 <= edgeID && edgeID < p.numEdges
+//@   ensures [chain-in-range] 0 <= result.ChainID && result.ChainID < len(p.loops)
+//@   ensures [offset-nonneg] 0 <= result.Offset
+//@   ensures [inverts] vcEdgeStart(p, result.ChainID)+result.Offset == edgeID
+//@   ensures [next-start] 0 <= result.ChainID ==> vcEdgeStart(p, result.ChainID+1) == vcEdgeStart(p, result.ChainID)+len(p.loops[result.ChainID].vertices)
+//@   ensures [offset-in-chain] result.ChainID < len(p.loops) ==> result.Offset < len(p.loops[result.ChainID].vertices)
+//@   loop 1 (rangeindex int, i int, edgeID int): invariant [search] -1 <= rangeindex && rangeindex < len(p.cumulativeEdges) && edgeID == old(edgeID) && vcEdgeStart(p, 0) == 0 && rangeindex+1 < len(p.cumulativeEdges) && p.cumulativeEdges[rangeindex+1] <= edgeID && vcWfPolyShape(p)
+//@   loop 2 (i int, edgeID int): invariant [linear] 0 <= i && i < len(p.loops) && 0 <= edgeID && vcEdgeStart(p, i)+edgeID == old(edgeID) && vcWfPolyShape(p)
+
+//@ func (p *Polygon) ChainEdge(i, j int) Edge
+//@   requires vcWfPolyShape(p) && 0 <= i && i < len(p.loops) && 0 <= j && j < len(p.loops[i].vertices)
+//@   ensures [oriented] vcSame(result.V0, p.loops[i].OrientedVertex(j)) && vcSame(result.V1, p.loops[i].OrientedVertex(j+1))
+
+// Edge(e) is the edge ChainEdge gives for the chain position of e
+//@ func (p *Polygon) Edge(e int) Edge
+//@   requires vcWfPolyShape(p) && 0 <= e && e < p.numEdges
+//@   ensures [edge-of-its-chain] exists c int :: 0 <= c && c < len(p.loops) && vcEdgeStart(p, c) <= old(e) && old(e)-vcEdgeStart(p, c) < len(p.loops[c].vertices) &&
+//@      vcSame(result.V0, p.loops[c].OrientedVertex(old(e)-vcEdgeStart(p, c))) && vcSame(result.V1, p.loops[c].OrientedVertex(old(e)-vcEdgeStart(p, c)+1))
+//@   loop 1 (rangeindex int, i int, e int): invariant [search] -1 <= rangeindex && rangeindex < len(p.cumulativeEdges) && e == old(e) && vcEdgeStart(p, 0) == 0 && rangeindex+1 < len(p.cumulativeEdges) && p.cumulativeEdges[rangeindex+1] <= e && vcWfPolyShape(p)
+//@   loop 1: invariant [next-start] vcEdgeStart(p, rangeindex+2) == vcEdgeStart(p, rangeindex+1)+len(p.loops[rangeindex+1].vertices)
+//@   loop 2 (i int, e int): invariant [linear] 0 <= i && i < len(p.loops) && 0 <= e && vcEdgeStart(p, i)+e == old(e) && vcWfPolyShape(p)
